@@ -164,13 +164,13 @@ def r1(ctx, g: Grammar):
             if ok and ccls:
                 want = set(BUILDER_RULES.get(ccls, [])) if ccls != "DataTransformBlock" else {"data_transform"}
                 body_ok = not want or bool(want & ba[name])
-            ctx.ob("R1", "GRAM", f, f"{src(recv)}.{m}({name!r})", ok and body_ok,
+            ctx.ob("R1", "GRAM", f, f"{cls}.{m}({name!r})", ok and body_ok,
                    f"{cls} child block {name!r}: block alias in {origins}={ok}; child {ccls} emits alternatives of {sorted(want) if want else '?'} and the grammar body is {sorted(ba.get(name, []))}", c)
         else:
             al = aliases_of(g, origins)
             ar = HELPER_ARITY[m]
             ok = name in al and ar in al[name]
-            ctx.ob("R1", "GRAM", f, f"{src(recv)}.{m}({name!r})", ok, f"{cls}.{m} emits {name!r} with {ar} string(s); rules {origins} " + (f"have it with arities {sorted(al[name])}" if name in al else "have no such alias"), c)
+            ctx.ob("R1", "GRAM", f, f"{cls}.{m}({name!r})", ok, f"{cls}.{m} emits {name!r} with {ar} string(s); rules {origins} " + (f"have it with arities {sorted(al[name])}" if name in al else "have no such alias"), c)
     ctx.rep.count("builder_call_sites", n, floor=40)
     # constructor keywords: HttpOptionsBlock(output=DataTransformBlock(...))
     for c in fn_calls(f.node):
@@ -265,20 +265,21 @@ def r3(ctx, g: Grammar):
     members = [m for m, _v in cd.enum("InjectExecutor").members]
     # the set of executors with module!function arguments, and the statements that render one executor
     special: Set[str] = set()
+    INJ = next((dotted(s2.targets[0]) for s2 in statements(prod.node) if isinstance(s2, ast.Assign) and isinstance(s2.value, ast.Call) and dotted(s2.value.func) == "InjectExecutor"), "inject")
     for n in body_walk(prod.node):
-        if isinstance(n, ast.Compare) and isinstance(n.ops[0], ast.In) and dotted(n.left) == "inject" and isinstance(n.comparators[0], (ast.Tuple, ast.List, ast.Set)):
+        if isinstance(n, ast.Compare) and isinstance(n.ops[0], ast.In) and dotted(n.left) == INJ and isinstance(n.comparators[0], (ast.Tuple, ast.List, ast.Set)):
             special = {(dotted(e) or "").split(".")[-1] for e in n.comparators[0].elts}
     loops_ = [s2 for s2 in statements(prod.node) if isinstance(s2, (ast.While, ast.For))]
     body = loops_[0].body if loops_ else []
     # statements after `inject = InjectExecutor(..)`
-    idx = next((i for i, s2 in enumerate(body) if isinstance(s2, ast.Assign) and dotted(s2.targets[0]) == "inject"), None)
+    idx = next((i for i, s2 in enumerate(body) if isinstance(s2, ast.Assign) and dotted(s2.targets[0]) == INJ), None)
     if idx is None:
         ctx.ob("R3", "VOCAB", prod, "producer shape", False, "parse_execute_list does not bind `inject = InjectExecutor(..)` in its loop")
         return
     render = body[idx + 1:]
     produced = []
     for m in members:
-        env = {"inject.name": m, "inject": f"InjectExecutor.{m}"}
+        env = {f"{INJ}.name": m, INJ: f"InjectExecutor.{m}"}
         for mm in members:
             env[f"InjectExecutor.{mm}"] = f"InjectExecutor.{mm}"
         got: List[Tuple[str, str]] = []
@@ -489,7 +490,9 @@ def r4_r5(ctx):
         ok = False
         if loop:
             v = dotted(loop[0].target.elts[1]) if isinstance(loop[0].target, ast.Tuple) else None
-            sets = [s for s in ast.walk(loop[0]) if isinstance(s, ast.Assign) and dotted(s.targets[0]) in ("prepend", "append")]
+            handed = {dotted(c.args[1]) for c in ast.walk(br) if isinstance(c, ast.Call) and isinstance(c.func, ast.Attribute) and c.func.attr == "set_option" and len(c.args) == 2
+                      and _c(c.args[0]) in ("prepend", "append")}
+            sets = [s for s in ast.walk(loop[0]) if isinstance(s, ast.Assign) and dotted(s.targets[0]) in handed]
             ok = bool(sets) and all(_classify_value(ctx, f, s.value, s, v) in ("repr", "bytes") for s in sets)
         ctx.ob("R4", "TAINT", f, f"{key} arguments", ok, "prepend/append bytes are escape-encoded before set_option" if ok else "prepend/append bytes reach set_option without escaping")
     # ---- R5 siblings
@@ -522,7 +525,10 @@ def r4_r5(ctx):
             key = src(st.test).split("SETTING_DNS_BEACON_")[1]
             calls = [c for s in st.body for c in ast.walk(s) if isinstance(c, ast.Call) and isinstance(c.func, ast.Attribute) and c.func.attr == "set_option"]
             dns[key] = (dotted(calls[0].func.value), _c(calls[0].args[0]), src(calls[0].args[1])) if len(calls) == 1 else None
-    ok = len(dns) == 6 and all(v is not None and v[0] == "dns_beacon" and v[1] == k.lower() and v[2] == "value" for k, v in dns.items())
+    main_loop = [s2 for s2 in f.node.body if isinstance(s2, ast.For)]
+    valv = dotted(main_loop[0].target.elts[1]) if main_loop and isinstance(main_loop[0].target, ast.Tuple) else "value"
+    dnsv = next((dotted(s2.targets[0]) for s2 in statements(f.node) if isinstance(s2, ast.Assign) and isinstance(s2.value, ast.Call) and dotted(s2.value.func) == "DnsBeaconBlock"), "dns_beacon")
+    ok = len(dns) == 6 and all(v is not None and v[0] == dnsv and v[1] == k.lower() and v[2] == valv for k, v in dns.items())
     ctx.ob("R5", "AGREE", f, "DNS_BEACON_* siblings", ok, f"each DNS subhost setting is emitted under its own lower-cased name: {dns}")
 
 
@@ -541,7 +547,7 @@ def r6(ctx):
             if isinstance(c, ast.Call) and isinstance(c.func, ast.Attribute) and c.func.attr in ATTACH:
                 n += 1
                 ok = c.func.attr == "set_non_empty_config_block"
-                ctx.ob("R6", "DOM", f, f"{src(c.func.value)}.{c.func.attr}({src(c.args[0]) if c.args else ''})", ok,
+                ctx.ob("R6", "DOM", f, f"epilogue {c.func.attr}({src(c.args[0]) if c.args else ''}) on {_block_class(ctx, f, c.func.value)}", ok,
                        "attached only when non-empty" if ok else "block attached unconditionally: an empty block would be emitted", c)
     ctx.rep.count("epilogue_attachments", n, floor=8)
     g = ctx.repo.func("c2profile.ConfigBlock.set_non_empty_config_block")
@@ -554,9 +560,20 @@ def r6(ctx):
             child = c.args[1] if len(c.args) > 1 else None
             cls = _block_class(ctx, f, child) if child is not None else None
             conds = [t for t, pol, n2 in dominating_conditions(ctx, f, c) if pol]
-            guarded = any(t in ("value", "prepend or append") or t.endswith("and value") for t in conds)
+            main_loop = [s2 for s2 in f.node.body if isinstance(s2, ast.For)]
+            valv = dotted(main_loop[0].target.elts[1]) if main_loop and isinstance(main_loop[0].target, ast.Tuple) else "value"
+            # names whose truthiness decides that something was put into the child block
+            child = dotted(c.args[1]) if len(c.args) > 1 else None
+            fed = set()
+            for k2 in fn_calls(f.node):
+                if isinstance(k2.func, ast.Attribute) and dotted(k2.func.value) == child and k2.func.attr in HELPER_ARITY and len(k2.args) > 1 and dotted(k2.args[1]):
+                    fed.add(dotted(k2.args[1]))
+            def _truthy_guard(t):
+                names = {x.strip() for x in t.replace(" and ", " or ").split(" or ")}
+                return valv in names or (bool(fed) and names <= fed | {valv}) 
+            guarded = any(_truthy_guard(t) for t in conds)
             ok = cls == "DataTransformBlock" or guarded
-            ctx.ob("R6", "DOM", f, f"{src(c.func.value)}.set_config_block({src(c.args[0])})", ok,
+            ctx.ob("R6", "DOM", f, f"in-loop set_config_block({src(c.args[0])})", ok,
                    f"in-loop attachment of {cls}: " + ("a data transform always has its steps/termination children" if cls == "DataTransformBlock" else f"guarded by {conds[-2:]}" if guarded else "not guarded against an empty child"), c)
 
 
